@@ -4,6 +4,19 @@ VERIF = os.path.dirname(os.path.dirname(os.path.abspath(__file__)))
 ALL = ["C%02d" % i for i in range(1, 21)]
 
 CLAIMS = {
+ "C01": dict(
+    text="Coq theorems: for any carrier / operator / number of columns / options, a silent return of cg and bicgstab carries "
+         "residual norms of the RETURNED iterate below max(rtol|b_j|, atol) for every column; MathComp (any field, any size): one "
+         "step of each recurrence preserves r = b - A x (so the test is on the true residual in exact arithmetic), the "
+         "normal-equation fallback solves the original system, the adjoint of A - eM is A^H - conj(e)M^H, the Cholesky reduction "
+         "for M and the per-column shifted solve are sound; broadcast-shape and default-method facts. The Gallina loops run at "
+         "IEEE binary64 against cg / bicgstab with a counting operator (warned, operator applications, returned block; decisions "
+         "unstable under a factor 2-4 of the thresholds are skipped and counted).",
+    note="Trusted: Coq kernel + vm_compute + PrimFloat; harness. Convergence in floating point, torch.linalg.solve/cholesky/lstsq, "
+         "broyden1 and the agreement clauses are implementation oracles (operator kinds x methods x E/M x batches x dtypes) with a "
+         "corpus of recorded witnesses. gmres: known findings F12a/F12b (no E, < 2 batch dims) - printed as KNOWN-FINDING.",
+    technique="Coq proof (loop invariants; MathComp matrix identities) + float model correspondence + dense-reference oracle",
+    ref="DESIGN.md section 7, C01"),
  "C03": dict(
     text="Coq theorems for ANY carrier, residual function, quasi-Newton strategy, tolerances and budget: a silent return of the "
          "root loop hands back the very iterate on which the four-way stopping test succeeded (evaluated on func of that point) "
